@@ -57,8 +57,29 @@ def cvq(v):
     return (F(v[0]), F(v[1]))
 
 
+def frac_exact(x):
+    """exact rational value of a real numpy / Python number, also of an extended-precision one"""
+    if isinstance(x, np.longdouble):
+        if x == 0:
+            return F(0)
+        mant, ex = np.frexp(x)
+        return F(int(mant * np.longdouble(2) ** 64)) * F(2) ** (int(ex) - 64)
+    return F(float(x))
+
+
+def ld(q):
+    """the extended-precision number with the exact value q (q = double + small dyadic rest)"""
+    q = F(q)
+    a_ = float(q)
+    return np.longdouble(a_) + np.longdouble(float(q - F(a_)))
+
+
 def enc(x):
     """implementation number -> [re, im] exact"""
+    if isinstance(x, np.clongdouble):
+        return [S(frac_exact(x.real)), S(frac_exact(x.imag))]
+    if isinstance(x, np.longdouble):
+        return [S(frac_exact(x)), S(0)]
     if isinstance(x, (complex, np.complexfloating)):
         return [S(F(float(x.real))), S(F(float(x.imag)))]
     if isinstance(x, (bool, np.bool_)):
@@ -69,7 +90,10 @@ def enc(x):
 
 
 def enc_arr(a):
-    return [enc(x) for x in np.asarray(a).reshape(-1).tolist()]
+    a = np.asarray(a)
+    if a.dtype in (np.dtype(np.longdouble), np.dtype(np.clongdouble)):
+        return [enc(x) for x in a.reshape(-1)]
+    return [enc(x) for x in a.reshape(-1).tolist()]
 
 
 def cvc(v):
@@ -134,8 +158,13 @@ def gen_mesh(rng, tier, nd=None, exact=True, with_subs=True, maxcells=None):
                 slo = [F(float(l) + i * float(c)) for l, i, c in zip(lo, a0, cell)]
                 shi = [F(float(l) + i * float(c)) for l, i, c in zip(lo, a1, cell)]
             subs.append([name, [S(x) for x in slo], [S(x) for x in shi], a0, a1])
+    names = dims or (["x", "y", "z"][:nd] if nd <= 3 else None)
+    bcs = ["", "", "neumann", "dirichlet"]
+    if names:       # periodic directions are named by one-character dimension names
+        bcs += [rng.choice(names), rng.choice(names), "".join(names), "".join(names),
+                "".join(rng.sample(names, rng.randint(1, nd)))]
     return dict(exact=exact, p1=[S(x) for x in p1], p2=[S(x) for x in p2], n=n, tf=S(tf), dims=dims,
-                subs=subs, scale=S(scale))
+                subs=subs, scale=S(scale), bc=rng.choice(bcs))
 
 
 def geom(m):
@@ -167,7 +196,7 @@ def build_mesh(m):
     subs = {}
     for name, slo, shi, _, _ in m.get("subs", []):
         subs[name] = df.Region(p1=[fl(x) for x in slo], p2=[fl(x) for x in shi], **kw)
-    return df.Mesh(region=region, n=m["n"], subregions=subs)
+    return df.Mesh(region=region, n=m["n"], subregions=subs, bc=m.get("bc", ""))
 
 
 def mesh_coq(m):
@@ -462,9 +491,23 @@ def gen_simple(rng, m, nv, dtype, kind=None, in_dict=False, tier="quick"):
 def py_simple(s, dtype):
     k = s["k"]
     if k == "const":
+        if s.get("adt") == "longdouble":
+            return ld(s["v"][0])
+        if s.get("adt") == "clongdouble":
+            return np.clongdouble(ld(s["v"][0])) + np.clongdouble(1j) * ld(s["v"][1])
+        if s.get("adt") == "float16":
+            return np.float16(float(F(s["v"][0])))
         return pyval(s["v"], dtype)
     if k == "arr":
-        if s.get("adt"):
+        if s.get("adt") in ("longdouble", "clongdouble", "float16"):
+            if s["adt"] == "clongdouble":
+                vals = [np.clongdouble(ld(v[0])) + np.clongdouble(1j) * ld(v[1]) for v in s["data"]]
+            elif s["adt"] == "longdouble":
+                vals = [ld(v[0]) for v in s["data"]]
+            else:
+                vals = [np.float16(float(F(v[0]))) for v in s["data"]]
+            a = np.array(vals, dtype=np.dtype(s["adt"])).reshape(s["sh"])
+        elif s.get("adt"):
             a = np.array([int(F(v[0])) for v in s["data"]], dtype=np.dtype(s["adt"])).reshape(s["sh"])
         else:
             a = np.array([pyval(v, dtype) for v in s["data"]], dtype=DT[dtype]).reshape(s["sh"])
@@ -1067,6 +1110,50 @@ def generate(rng, tier):
         spec = gen_simple(rng, m, nv, dtype, kind=rng.choice(["arr", "fun"]))
         for cls, p in pick_points(rng, m, exact):
             cases.append(dict(kind="sample", mesh=m, nv=nv, dtype=dtype, spec=spec, p=p, cls=cls))
+    # -- extended precision: values that are not double-precision numbers, dtype omitted; stored exactly
+    for k in range(N // 2):
+        m = gen_mesh(rng, tier, exact=True, maxcells=40)
+        adt = rng.choice(["longdouble", "longdouble", "clongdouble", "float16"])
+        dtype = "complex" if adt == "clongdouble" else "float"
+        nv = rng.choice([1, 1, 2, 3])
+
+        def xval():
+            if adt == "float16":
+                return [S(F(rng.randint(-64, 64), rng.choice([1, 2, 4, 8]))), S(0)]
+            def one():
+                # representable with a 64-bit significand, not with a 53-bit one
+                if rng.random() < 0.4:
+                    q = F(rng.choice([1, -1, 1, 0])) + rng.choice([1, -1]) * F(1, 2 ** 63)
+                else:
+                    q = F(rng.randint(-7, 7)) + rng.choice([0, 1, -1, 3]) * F(1, 2 ** 60)
+                return q if frac_exact(ld(q)) == q else F(1) + F(1, 2 ** 63)
+            return [S(one()), S(one() if adt == "clongdouble" else 0)]
+        kinds = ["vec", "arr", "arr"] + (["const", "arr-n"] if nv == 1 else [])
+        for via in ("ctor", "update", "setter"):
+            kd = rng.choice(kinds)
+            if kd == "const":
+                sx = dict(k="const", v=xval(), cls="const-x", adt=adt)
+            else:
+                sh = [nv] if kd == "vec" else (list(m["n"]) if kd == "arr-n" else list(m["n"]) + [nv])
+                sx = dict(k="arr", sh=sh, data=[xval() for _ in range(math.prod(sh))], cls=kd + "-x", adt=adt,
+                          py="ndarray", layout=rng.choice(LAYOUTS))
+            if via == "setter":
+                cases.append(dict(kind="assign", mesh=m, nv=nv, dtype=dtype, dtarg="none", via="setter", s1=sx,
+                                  s0=gen_simple(rng, m, nv, dtype, kind="vec")))
+            else:
+                cases.append(dict(kind="init", mesh=m, nv=nv, dtype=dtype, spec=sx, via=via, dtarg="none"))
+    # -- component labels that differ only in case, or contain one another: EVERY label is accessed
+    for k in range(N // 2):
+        m = gen_mesh(rng, tier, exact=True, with_subs=False, maxcells=40)
+        fam = rng.choice([["b", "B"], ["H", "h", "m"], ["Re", "RE", "re", "im"], ["m", "mx", "mxy"],
+                          ["ab", "a", "ba", "b"], ["Mx", "mx", "MX"], ["q", "Q"], ["vx", "Vx", "vX", "VX"]])
+        fam = list(fam)
+        rng.shuffle(fam)
+        nv = len(fam)
+        dtype = rng.choice(["float", "int", "complex"])
+        spec = gen_simple(rng, m, nv, dtype, kind="arr")
+        for label in fam + [rng.choice([fam[0].swapcase(), fam[-1].upper() + "x", fam[0][:1] + "_"])]:
+            cases.append(dict(kind="comp", mesh=m, nv=nv, dtype=dtype, spec=spec, vdims=fam, label=label))
     # -- component access
     for k in range(N):
         m = gen_mesh(rng, tier, exact=True, with_subs=False)
@@ -1079,7 +1166,8 @@ def generate(rng, tier):
             vd = rng.sample(["a", "b", "c", "mx", "my", "e1", "e2"], nv)
         default = ["x", "y", "z"][:nv] if 2 <= nv <= 3 else ([f"v{i}" for i in range(nv)] if nv > 3 else [])
         known = vd or default
-        label = rng.choice(known) if known and rng.random() < 0.7 else rng.choice(["x", "nope", "v1", "a"])
+        label = rng.choice(known) if known and rng.random() < 0.7 else \
+            rng.choice(["x", "nope", "v1", "a", "X", "V0", "Y", known[0].upper() if known else "Z"])
         cases.append(dict(kind="comp", mesh=m, nv=nv, dtype=dtype, spec=spec, vdims=vd, label=label))
     # -- iteration
     for k in range(N):
